@@ -252,7 +252,7 @@ func childMain(views, plan, end, out, logPath string, intervalMs int) {
 	if err != nil {
 		msg = err.Error()
 		switch {
-		case strings.Contains(msg, "is ahead of latest snapshot"):
+		case strings.Contains(msg, "is ahead of latest snapshot"), strings.Contains(msg, "is ahead of the replica"):
 			cls = "ahead"
 		case strings.Contains(msg, "is behind the earliest snapshot"):
 			cls = "behind"
